@@ -26,10 +26,6 @@ theorem Rel_rdBodyV01 (h : Header) (w : Window) : Rel (rdBodyV01 h w) := by
   · trivial
   · intro left; exact Rel_rdBlocks _ _ _ _ _ _ _
 
-/-- the body `docs/specs/v0.1.md` describes: `u16` fps, `u16` frame count field, `u16` people, coordinate block, confidence block -/
-def specBodyV01 (b : Body) (fps framesField : Nat) : Bytes :=
-  putU16 fps ++ putU16 framesField ++ putU16 b.people ++ putF32s b.data ++ putF32s b.conf
-
 /-- decoding the reference v0.1 body: the on-disk frame count is irrelevant, the count comes from the payload size -/
 theorem rdBodyV01_spec (h : Header) (b : Body) (hf : b.Fits h) (fps ff : Nat) (hfps : fps < 65536) (hff : ff < 65536)
     (hpeople : b.people < 65536) (hp1 : 1 ≤ b.people) (hn1 : 1 ≤ b.points) :
